@@ -1465,8 +1465,16 @@ def dlpoly_dynamic_range(run):
     cases = [("bornmayer 1000 0.03", lambda r: 1000.0 * math.exp(-r / 0.03), "as.bornmayer 1000.0 0.03"),
              ("constant 3e-120", lambda r: 3e-120, "as.constant 3e-120"),
              ("-2.5e-101 r", lambda r: -2.5e-101 * r, "as.polynomial 0 -2.5e-101")]
+    # values are numbers, whatever their Python type: a cap written with an integer literal returns an int on the first rows and
+    # floats afterwards; numpy scalars; (Python API only)
+    import numpy
+    cases += [("int on the first rows (min(5000, ...))", lambda r: 5000 if r <= 1.0 else 4505.5458 - r, None),
+              ("int on the last rows", lambda r: 4505.5458 - r if r <= 11.0 else 0, None),
+              ("numpy scalars", lambda r: numpy.float64(4505.5458) - numpy.float32(0.5) * r, None)]
     for name, fn, defn in cases:
         for route in ("class", "wp", "ini"):
+            if defn is None and route == "ini":
+                continue
             run.evaluations += 1
             run.replayed += 1
             run.distinct("dynamic-range:%s:%s" % (name, route))
